@@ -18,7 +18,7 @@ TE2e ==
        /\ o.encOnWire = x.enc
        /\ o.clearOnWire = ~x.enc                   \* the clear payload never travels next to / instead of the ciphertext
        /\ o.delivered = x.delivered                \* never "altered"
-       /\ o.call = x.call
+       /\ IF x.call = "notok" THEN o.call \in {"failed", "pending"} ELSE o.call = x.call
 TraceSpec == TInit /\ [][TE2e]_tvars
 Progress == TLCSet(tid, IF TLCGet(tid) < l THEN l ELSE TLCGet(tid))
 Post ==
